@@ -125,7 +125,7 @@ def gather_programs(chk, quick, rng, W):
                 txt += "  %s ref_%d = %d;\n" % (shape, k, k + 2)
             txt += "}\n"
             open(path, "w").write(txt)
-        cases.append({"proto_root": root, "cls": "proto-tree:pkgexport", "image": True})
+        cases.append({"proto_root": root, "cls": "proto-tree:pkgexport", "image": True, "graph": g.get("refs", [])})
     j5st = {}
     for p in glob.glob(os.path.join(vcheck.REPO, "j5stest", "proto", "**", "*.j5s"), recursive=True):
         j5st[os.path.relpath(p, os.path.join(vcheck.REPO, "j5stest", "proto"))] = open(p).read()
@@ -242,6 +242,42 @@ def run(chk):
             chk.extra_cov["runs_violating_%s_per_trace_spec" % prop] = done[0][key]
             if done[0][key] != nviol:
                 chk.machinery_errors.append("trace specification counts %d runs violating %s, direction G recorded %d" % (done[0][key], prop, nviol))
+
+    # direction T for the package closure (C15): every real export of a PackageExport graph with one named root, loaded into the
+    # specification as a finished export and judged by its invariants (exported nodes = least fixed point, listed / indirect packages)
+    if prop == "C15":
+        def node(n):
+            parts = n.split(".")
+            return [".".join(parts[:2]), parts[2] if len(parts) > 2 else ""]
+        pev = []
+        for c, e in zip(cases, res):
+            out = e.get("out") or {}
+            if "graph" not in c or out.get("skip"):
+                continue
+            for x in out.get("events") or []:
+                if x.get("op") != "partial-images":
+                    continue
+                for cl in x.get("closures") or []:
+                    pev.append({"refs": [[node(a), node(b)] for a, b in c["graph"]], "named": cl["named"], "listed": cl.get("listed") or [],
+                                "indirect": cl.get("indirect") or [], "exported": [node(n) for n in cl.get("exported") or []]})
+        chk.extra_cov["package_closure_exports_recorded"] = len(pev)
+        if pev:
+            path = os.path.join(chk.dir, "pkgexport.trace.ndjson")
+            vcheck.write_ndjson(path, pev)
+            tr = chk.tlc("PackageExportTrace.tla", "PackageExport_trace.cfg", "pkgexport_trace", workers=1, env={"VERIF_TRACE": path}, timeout=1200)
+            done = [o for (t, o) in tr.lines if t == "TRACEDONE"]
+            if tr.violated:
+                # the real export is not the one the model computes: reported as drift unless the re-import / re-export above failed too
+                sig = "C15|package-closure|PackageExportTrace rejects a recorded export: %s" % tr.violated
+                chk.drift[sig] = chk.drift.get(sig, 0) + 1
+                chk.notes.append(sig + "\n" + tr.output[-1500:])
+            elif not done or done[0]["events"] != len(pev):
+                chk.machinery_errors.append("PackageExportTrace did not run to the end of the recorded exports\n%s" % tr.output[-1200:])
+            else:
+                chk.traces_validated += len(pev)
+                chk.trace_events += len(pev)
+        elif any("graph" in c for c in cases):
+            chk.machinery_errors.append("no export of a PackageExport graph was recorded: the closure leg is dead")
 
 
 def replay(prop, path):
